@@ -66,7 +66,7 @@ MIN_COUNTERS = {
     "thorough": {"patterns_enumerated": 746496, "optimum_judged": 850000, "result_judged": 700000,
                  "branch_feasible": 350000, "branch_infeasible": 400000, "selection_nontrivial": 500000,
                  "infeasible_partial_histories": 200000, "feasible_without_usable_objective": 100000,
-                 "feasible_nan_objective_before_finite": 1, "feasible_missing_objective_before_finite": 1,
+                 "feasible_nan_objective_before_finite": 6000, "feasible_missing_objective_before_finite": 24000,
                  "feasibility_checks_full_points": 2000000, "random_histories": 480000, "pareto_fronts_judged": 18000,
                  "live_store_events_judged": 5000, "maximize_cases": 400000, "original_objective_sign_restored": 150000},
 }
